@@ -882,6 +882,7 @@ fn display(rng: &mut Rng, n: usize, sink: &mut Sink) {
             0 => sink.line(&format!("from_bool {d} {}", i / 7 % 2)),
             1 => sink.line(&format!("from_char {d} {}", h(gn::rand_char(rng)))),
             2 => sink.line(&format!("from_string {d} {}", h(&gn::rand_text(rng)))),
+            4 | 6 => sink.line(&format!("display {d} {}", gn::items_pieces_sized(rng, i % 7 == 6))),
             _ => sink.line(&format!("display {d} {}", gn::items_strs(rng, i % 7 == 3, true))),
         }
         if rng.chance(10) {
